@@ -174,13 +174,20 @@ class Checker:
 
     def three(self, src):
         tree = ast.parse(src)
-        impl = fe.flat_lines(self.fa.flatten_ast(tree))
+        try:
+            impl = fe.flat_lines(self.fa.flatten_ast(tree))
+        except Exception as exc:
+            if isinstance(exc, RecursionError) and fe.tree_depth(tree) > 60:
+                raise  # a genuinely deep tree: not a case
+            # the implementation raised on a parsable program: a one-line pseudo-output, so that the case is compared (and
+            # fails), attributed, minimised and replayed like any other difference
+            impl = [f"<flatten_ast raised {type(exc).__name__}: {exc}>"]
         ex = fe.export(tree)
         model = self.drv.call("c15.flatten", tree=ex)["lines"]
         r = self.drv.call("c15.spec", tree=ex)
         spec = r["lines"]
         self.last_wf = (r["wf_unquote"], r["wf_kinds"], r["wf_posonly"], r["wf_alias"], r["wf_stages4"], r["wf_stages6"],
-                        r["stage6_eq_tweak"], r["repr_is_dumpNoCtx"])
+                        r["stage6_eq_tweak"], r["repr_is_dumpNoCtx"], r["wf_tweak"])
         return tree, impl, model, spec
 
     def fails(self, src):
@@ -219,6 +226,12 @@ class Checker:
         ctx.dist("hypothesis wfStages4 (first four passes) " + ("holds" if self.last_wf[4] else "FAILS") + " on the real tree")
         ctx.dist("hypothesis wfStages6 (Tree.WF of C15_tweaks_full) " + ("holds" if self.last_wf[5] else "FAILS") + " on the real tree")
         ctx.dist("stage6 = tweak (staged tweaks vs one-shot specification) " + ("holds" if self.last_wf[6] else "FAILS") + " on the real tree")
+        ctx.dist("hypothesis wfTweak (staged tweaks = one-shot specification) " + ("holds" if self.last_wf[8] else "FAILS") +
+                 " on the real tree")
+        if not self.last_wf[8] and not (fe.quirk_features(tree) - {"async-def", "bytes-repr-double-quoted"}):
+            ctx.dist("LEAD: wfTweak fails on a non-adversarial tree")
+            if len(ctx.notes) < 5:
+                ctx.notes.append("lead: wfTweak fails on a non-adversarial tree: " + src[:300])
         ctx.dist("hypothesis reprsAreDumps (exported hash source = dumpNoCtx of the node) " +
                  ("holds" if self.last_wf[7] else "FAILS") + " on the real tree")
         if not self.last_wf[7]:
@@ -385,7 +398,10 @@ def run_passes(ctx, drv, fa):
         bad = 0
         for c, o in zip(cases, outs):
             text = "".join(l + "\n" for l in c)
-            impl = fe.flat_lines(real(text))
+            try:
+                impl = fe.flat_lines(real(text))
+            except Exception as exc:  # compared (and different) like any other output: recorded with its input lines
+                impl = [f"<{name} raised {type(exc).__name__}: {exc}>"]
             ctx.count(f"pass:{name}", tuple(c), nontrivial=impl != c)
             if impl != o["lines"]:
                 bad += 1
@@ -406,15 +422,25 @@ def run_sequences(ctx, drv, fa, sources):
     for s in range(n_seq):
         pick = [rng.choice(sources) for _ in range(rng.randint(3, 8))]
         trees = [ast.parse(x) for x in pick]
-        singles = []
-        for t in trees:
-            singles.append(fa.flatten_ast(t))
+        try:
+            singles = [fa.flatten_ast(t) for t in trees]
+        except Exception as exc:  # every source here is also a case of the program streams, which report it
+            ctx.dist(f"sequence: flatten_ast raised {type(exc).__name__} on a single tree")
+            continue
         order = [rng.randrange(len(trees)) for _ in range(rng.randint(5, 20))]
         outs = []
         for i in order:
             if rng.random() < 0.3:
                 fa.pseudo_hash("Name(id='" + rng.choice(fe.IDENTS) + "')")  # other users of the factory
-            outs.append(fa.flatten_ast(trees[i]))
+            try:
+                outs.append(fa.flatten_ast(trees[i]))
+            except Exception as exc:
+                ctx.violations.append({
+                    "what": f"flatten_ast raised {type(exc).__name__}: {exc} on a tree it flattens when called first",
+                    "signature": None,
+                    "replay": {"kind": "sequence", "sources": pick, "order": order, "position": len(outs)},
+                })
+                return
         m = drv.call("c15.seq", trees=[fe.export(t) for t in trees], order=order)["out"]
         ctx.count("sequence", (s, tuple(order)), nontrivial=len(set(order)) > 1, n=len(order))
         for j, i in enumerate(order):
@@ -528,8 +554,8 @@ def run(ctx):
         "it needs the injectivity of Python's repr-based dump text (checked by c15.spec: hashes recomputed from a "
         "length-prefixed canonical form); that the exported hash source is dumpNoCtx of the node is checked on every real tree",
         "ast.parse itself (tree and line numbers are inputs of the model)",
-        "that the staged tweaks `stage6` equal the one-shot specification `tweak` (kinds by real kind): compared by the "
-        "driver on every real tree (stage6_eq_tweak), and c15.spec = dump of `tweak`",
+        "nothing about the tweaks themselves any more: C15_stage6_eq_tweak proves the staged tweaks equal the one-shot "
+        "`tweak` under wfTweak (the driver still compares them on every tree, and reports wfTweak holds/total)",
     ]
     ctx.cov["trusted_base"] = core.BASE_TRUST + [
         "harness/flat_export.py: exporter of the real ast tree (types, fields in iter_fields order, lineno, repr of scalars, "
